@@ -10,17 +10,20 @@
      (c) the machine is a left fold over the token list that stops at the first failure, so the
          report depends only on the tokens up to the failing one (prefix determinism) and can
          never lie before a token the machine has not reached.
-   Which token is "the offending one" for each error category (unknown command, extension not
-   loaded, unexpected tag, surplus argument, test in command position ...) is the content of
-   [process]; the categories are exercised against the implementation by the check with the
-   expected offset computed independently.  'never before the first invalidating token' in the
+   Which token is "the offending one" for each error category: sieve/RejectFacts.v proves, after every
+   prefix of a script of the grammar (any nesting), that an unknown command, a command or tag whose extension is
+   not loaded, a tag the command does not take, a surplus or ill-typed argument, a test in command position and a
+   non-test in test position are reported at the first byte of THAT token with its length
+   (C18_offending_token, C18_unknown_command_at_token, C18_non_test_at_token, C18_argument_at_token); the
+   categories are also exercised against the implementation by the check with the expected offset computed
+   independently.  'never before the first invalidating token' in the
    viable-prefix sense needs C01_complete and is checked on the implementation (mutants). *)
 From Coq Require Import String.
 From Coq Require Import List NArith Bool Arith.
 From SV Require Import Bytes Lexer Tables ArgCheck ArgSpec Machine Printer GenTables.
 Import ListNotations.
 Local Open Scope nat_scope.
-From SV Require Import PositionFacts.
+From SV Require Import PositionFacts TotalFacts CompleteFacts CompleteTree RejectFacts RejectExamples.
 
 (* the specification of lines: split_lf is the only LF-free, non-empty decomposition that joins back to the text *)
 Theorem C18_split_unique :
@@ -127,6 +130,102 @@ Theorem C18_prefix_determinism :
   (Datatypes.length text1 <= Datatypes.length text2 -> parse T text2 = Reject e pos tlen).
 Proof. exact PositionFacts.prefix_determinism. Qed.
 Print Assumptions C18_prefix_determinism.
+
+(* tokens the machine takes, then one it refuses: the report is (error, first byte of that token, its length), whatever follows *)
+Theorem C18_offending_token :
+  forall (T : tables) (text : bytes) (pre : list token) (t : token) 
+    (rest : list token) (st : pstate) (e : perr),
+  fst (lex text) = pre ++ t :: rest ->
+  steps T p_init (map strip_pos pre) = Some st ->
+  stops (process T st t) e -> parse T text = Reject e (t_pos t) (Datatypes.length (t_val t)).
+Proof. exact RejectFacts.reject_after_prefix. Qed.
+Print Assumptions C18_offending_token.
+
+(* unknown command / extension not loaded after any prefix of the grammar: reported at that identifier *)
+Theorem C18_unknown_command_at_token :
+  forall T : tables,
+  twf_tables T = true ->
+  forall (text : bytes) (pre : list token) (t : token) (rest : list token) 
+    (L : list bytes) (prev : option bytes) (k : nat) (e : perr),
+  wf_prefix T (map strip_pos pre) L prev k ->
+  fst (lex text) = pre ++ t :: rest ->
+  t_kind t = TIdentifier ->
+  get_command_instance T L (t_val t) = inr e ->
+  parse T text = Reject e (t_pos t) (Datatypes.length (t_val t)).
+Proof. exact RejectFacts.unknown_command_rejected. Qed.
+Print Assumptions C18_unknown_command_at_token.
+
+(* a test in command position: reported at that identifier *)
+Theorem C18_test_in_command_position_at_token :
+  forall T : tables,
+  twf_tables T = true ->
+  forall (text : bytes) (pre : list token) (t : token) (rest : list token) 
+    (L : list bytes) (prev : option bytes) (k : nat) (d : cmddef),
+  wf_prefix T (map strip_pos pre) L prev k ->
+  fst (lex text) = pre ++ t :: rest ->
+  t_kind t = TIdentifier ->
+  get_command_instance T L (t_val t) = inl d ->
+  d_type d = CTest ->
+  parse T text = Reject (EFirstCommand (d_name d)) (t_pos t) (Datatypes.length (t_val t)).
+Proof. exact RejectFacts.test_as_command_rejected. Qed.
+Print Assumptions C18_test_in_command_position_at_token.
+
+(* a non-test (or no identifier at all) in test position: reported at that token *)
+Theorem C18_non_test_at_token :
+  forall T : tables,
+  twf_tables T = true ->
+  forall (text : bytes) (pre : list token) (tn t : token) (rest : list token) 
+    (L : list bytes) (prev : option bytes) (k : nat) (d : cmddef),
+  wf_prefix T (map strip_pos pre) L prev k ->
+  fst (lex text) = pre ++ tn :: t :: rest ->
+  t_kind tn = TIdentifier ->
+  get_command_instance T L (t_val tn) = inl d ->
+  d_type d = CControl ->
+  d_accept_children d = true ->
+  has_arguments d = true ->
+  not_comment (t_kind t) = true ->
+  match t_kind t with
+  | TIdentifier =>
+      match get_command_instance T L (t_val t) with
+      | inl d' =>
+          d_type d' <> CTest ->
+          parse T text = Reject (ENotTest (d_name d')) (t_pos t) (Datatypes.length (t_val t))
+      | inr e => parse T text = Reject e (t_pos t) (Datatypes.length (t_val t))
+      end
+  | _ => parse T text = Reject EExpected (t_pos t) (Datatypes.length (t_val t))
+  end.
+Proof. exact RejectFacts.test_position_rejected. Qed.
+Print Assumptions C18_non_test_at_token.
+
+(* a tag the command does not take, a tag whose extension is not loaded, a surplus or ill-typed argument: reported at a token of the argument list *)
+Theorem C18_argument_at_token :
+  forall T : tables,
+  twf_tables T = true ->
+  forall (text : bytes) (pre : list token) (tn : token) (atoks rest : list token)
+    (L : list bytes) (prev : option bytes) (k : nat) (d : cmddef) 
+    (args : list argument) (e : option perr),
+  wf_prefix T (map strip_pos pre) L prev k ->
+  fst (lex text) = pre ++ tn :: atoks ++ rest ->
+  t_kind tn = TIdentifier ->
+  get_command_instance T L (t_val tn) = inl d ->
+  flat_def d = true ->
+  wf_def d = true ->
+  ArgCheckFacts.fixed_arity d = true ->
+  Forall arg_ok args ->
+  map strip_pos atoks = flat_map arg_toks args ->
+  legal d L args = LReject e ->
+  exists (t : token) (e' : perr),
+    In t atoks /\ parse T text = Reject e' (t_pos t) (Datatypes.length (t_val t)).
+Proof. exact RejectFacts.illegal_arguments_rejected. Qed.
+Print Assumptions C18_argument_at_token.
+
+(* non-vacuity: line 3, column 4, length 3 for an unknown command inside a block, from the theorem *)
+Theorem C18_offending_examples :
+  let text := bs (px_text ++ "foo ""x""; }") in
+  parse gen_tables text = Reject (EUnknownCommand (bs "foo")) 46 3 /\
+  error_pos text (parse gen_tables text) = Some (3, 4, 3).
+Proof. exact RejectExamples.ex_unknown. Qed.
+Print Assumptions C18_offending_examples.
 
 (* non-vacuity: each token-level category on a concrete script, position = first byte of the token *)
 Example C18_unknown_command :
